@@ -59,7 +59,8 @@ def traceJson (tr : List (Nat × Branch)) : Json :=
 def obsJson (t i : Nat) : Obs K → Json
   | .refused => Json.mkObj [("t", toJson t), ("i", toJson i), ("r", "refused")]
   | .crashed => Json.mkObj [("t", toJson t), ("i", toJson i), ("r", "crash")]
-  | .signed vs => Json.mkObj [("t", toJson t), ("i", toJson i), ("r", "sig"), ("verifiers", jstrs vs), ("intact", true)]
+  | .signed vs none => Json.mkObj [("t", toJson t), ("i", toJson i), ("r", "sig"), ("verifiers", jstrs vs), ("intact", true)]
+  | .signed vs (some a) => Json.mkObj [("t", toJson t), ("i", toJson i), ("r", "sig"), ("verifiers", jstrs vs), ("intact", true), ("accepted", a)]
   | .verified ok => Json.mkObj [("t", toJson t), ("i", toJson i), ("r", "verified"), ("ok", ok)]
   | .setupDone => Json.mkObj [("t", toJson t), ("i", toJson i), ("r", "setup")]
 
@@ -67,7 +68,7 @@ def parseObs (j : Json) : Nat × Nat × Obs K :=
   (natD j "t", natD j "i",
    match strD j "r" with
    | "refused" => .refused
-   | "sig" => .signed (strList j "verifiers")
+   | "sig" => .signed (strList j "verifiers") (bool? j "accepted")
    | "verified" => .verified (boolD j "ok")
    | "setup" => .setupDone
    | _ => .crashed)
@@ -102,15 +103,19 @@ def noopTags (tb : Tables A) (threads : List (Thread K A M)) (sched : List Nat) 
       go g' rest acc
   (go (init threads) sched []).eraseDups
 
-def firstBad (tb : Tables A) (threads : List (Thread K A M)) (obs : List (Nat × Nat × Obs K)) : Option String :=
-  (obs.find? fun p => !specEntry tb threads p).map fun p =>
+def firstBad (tb : Tables A) (pub : Option (K → List K)) (threads : List (Thread K A M))
+    (obs : List (Nat × Nat × Obs K)) : Option String :=
+  (obs.find? fun p => !specEntry tb pub threads p).map fun p =>
     match threads[p.1]? with
     | none => s!"result attributed to unknown thread {p.1}"
     | some th =>
       let own := keyAfter th.key (th.prog.take p.2.1)
       match th.prog[p.2.1]?, p.2.2 with
-      | some (.sign _ _), .signed vs =>
-          s!"thread {p.1} op {p.2.1} (entity key {own}): signature verifies under {vs}, must verify under {own} and no other key"
+      | some (.sign _ _), .signed vs acc =>
+          if vs.contains own && vs.all (· == own) then
+            s!"thread {p.1} op {p.2.1} (entity key {own}): receiver whose metadata publishes {(pub.map (· own)).getD []} for the issuer answered accepted={acc}"
+          else
+            s!"thread {p.1} op {p.2.1} (entity key {own}): signature verifies under {vs}, must verify under {own} and no other key"
       | some (.verify _ _ sig (some c) _), .verified ok =>
           s!"thread {p.1} op {p.2.1} (verifier backend {own}): signature made by {sig.key} checked against certificate {c} gives {ok}"
       | _, _ => s!"thread {p.1} op {p.2.1}: result does not belong to the operation at that index"
@@ -126,10 +131,12 @@ def handle (line : Json) : Json :=
   let tb : Tables A := { allowed := fun a => allowed.contains a, hasSigner := fun a => signerAlgs.contains a }
   let full := complete threads sched
   let univ := certUniverse threads extra
+  -- "published": {issuer key name: [certificate names in metadata order]} = what the receiver's metadata lists
+  let pub : Option (K → List K) := (obj? c "published").map fun pj => fun k => strList pj k
   let g := run tb threads full
   let gs := runSh tb threads full
-  let mObs := observe univ g.out
-  let sObs := observe univ gs.out
+  let mObs := observe threads univ pub g.out
+  let sObs := observe threads univ pub gs.out
   let mTrace := g.trace.map fun (t, b) => (t, pointCode b.point)
   let sTrace := gs.trace.map fun (t, b) => (t, pointCode b.point)
   let iObs := (arrD impl "events").map parseObs
@@ -155,17 +162,17 @@ def handle (line : Json) : Json :=
   let tags := hit.map branchTag ++ noops
   let codes := hit.map branchCode ++ noops.map fun s => if s == "slot/finished-thread" then "xF" else "xT"
   let path := s!"{stream}/{threads.length}t/{cls}/{"+".intercalate codes}"
-  let specI := specOk tb threads iObs
+  let specI := specOk tb pub threads iObs
   let base : List (String × Json) :=
     [("model", Json.mkObj [("trace", traceJson g.trace), ("events", jarr (mObs.map fun p => obsJson p.1 p.2.1 p.2.2))]),
      ("model_shared", if race || decide (mTrace ≠ sTrace) then
         Json.mkObj [("trace", traceJson gs.trace), ("events", jarr (sObs.map fun p => obsJson p.1 p.2.1 p.2.2))]
       else Json.str "same-as-model"),
      ("like", like), ("class", cls), ("stream", stream), ("tags", jstrs tags), ("path", path),
-     ("spec_model", specOk tb threads mObs), ("spec_impl", specI)]
+     ("spec_model", specOk tb pub threads mObs), ("spec_impl", specI)]
   let why : List (String × Json) :=
     if specI then [] else
-      [("why", Json.str ((firstBad tb threads iObs).getD "?" ++
+      [("why", Json.str ((firstBad tb pub threads iObs).getD "?" ++
          (if likeS && !likeM then "; the implementation's output equals the SHARED-MUTABLE-KEY model (design before fix d2fa3ada)" else "")))]
   Json.mkObj (base ++ why)
 
